@@ -217,6 +217,11 @@ type zzAutoState struct {
 	restoreFailed         int // class of the failed restore (0 = none)
 	connsAtRestoreFailure int
 	disablePermDenied     bool
+	// ghost, independent of the order of Set calls: every setAutoconf starts
+	// with a read, so a read opens a new connection's episode
+	prevRead    bool // value returned by the episode's read
+	lastDisable int  // 0 none yet in this episode, 1 written, 2 permission denied
+	owed        bool // a disable was written and no restore has been attempted since
 }
 
 func zzStateErr(k int) error {
@@ -237,6 +242,9 @@ func (s *zzAutoState) IPv6Autoconf(iface string) (bool, error) {
 		s.anyFailure = true
 		return false, zzErrOpaque
 	}
+	// the previous connection's restore was attempted before this one starts
+	zzAssert(!s.owed, "restore-attempted-before-next-connection")
+	s.prevRead, s.lastDisable, s.phase = s.value, 0, 0
 	return s.value, nil
 }
 
@@ -251,7 +259,7 @@ func (s *zzAutoState) SetIPv6Autoconf(iface string, enable bool) error {
 		if k == 1 {
 			// permission denied is tolerated: the connection is kept, value unchanged
 			s.anyFailure, s.disablePermDenied = true, true
-			s.phase = 1
+			s.phase, s.lastDisable = 1, 2
 			return zzStateErr(k)
 		}
 		if k != 0 {
@@ -259,11 +267,13 @@ func (s *zzAutoState) SetIPv6Autoconf(iface string, enable bool) error {
 			return zzStateErr(k) // dial fails, nothing to restore
 		}
 		s.value = false
-		s.phase = 1
+		s.phase, s.lastDisable, s.owed = 1, 1, true
 		return nil
 	}
-	// restoring
-	s.phase = 0
+	// restoring: whatever its outcome, the attempt writes the value read when
+	// the connection was set up
+	s.phase, s.owed = 0, false
+	zzAssert(enable == s.prevRead, "restore-writes-the-value-read-before")
 	if k != 0 {
 		s.anyFailure = true
 		s.restoreFailed = k
